@@ -132,7 +132,25 @@ def run_verus(workdir, crate_text, cfgs, log, rlimit=100, cache_dir=None, extra_
             log('verus: cached result (%s)' % key[:12])
             return d
     t = time.time()
-    p = subprocess.run(args, cwd=workdir, capture_output=True, text=True)
+    # own session + wall-clock limit: a diverging query (rlimit is not a time limit) must end as "undecided", and the z3 children must go
+    import signal
+    limit = int(os.environ.get('VERIF_VERUS_TIMEOUT', '2400'))
+    pr = subprocess.Popen(args, cwd=workdir, stdout=subprocess.PIPE, stderr=subprocess.PIPE, text=True, start_new_session=True)
+    try:
+        so, se = pr.communicate(timeout=limit)
+    except subprocess.TimeoutExpired:
+        try:
+            os.killpg(pr.pid, signal.SIGKILL)
+        except Exception:
+            pass
+        so, se = pr.communicate()
+        se = (se or '') + '\nerror: verus timed out after %d s (killed)\n' % limit
+        so = ''
+
+    class _P:
+        pass
+    p = _P()
+    p.stdout, p.stderr, p.returncode = so, se, pr.returncode
     wall = time.time() - t
     js = None
     try:
